@@ -39,3 +39,7 @@ pub assume_specification [char::is_control] (c: char) -> (r: bool)
 use vstd::std_specs::cmp::PartialEqSpec as _;
 pub assume_specification<T: PartialEq> [<[T]>::contains] (s: &[T], x: &T) -> (r: bool)
     ensures T::obeys_eq_spec() ==> r == (exists|i: int| 0 <= i < s@.len() && (#[trigger] s@[i]).eq_spec(x));
+// Vec::dedup removes consecutive repeated elements: nothing is stated beyond "never longer, unchanged if there is no repeat"
+pub assume_specification<T: PartialEq, A: std::alloc::Allocator> [Vec::<T, A>::dedup] (v: &mut Vec<T, A>)
+    ensures final(v)@.len() <= old(v)@.len(),
+        (T::obeys_eq_spec() && forall|i: int| 0 <= i < old(v)@.len() - 1 ==> !(#[trigger] old(v)@[i]).eq_spec(&old(v)@[i + 1])) ==> final(v)@ == old(v)@;
